@@ -48,6 +48,7 @@ type Contract struct {
 	Fresh    bool // extern: results are freshly allocated
 	Tags     []string
 	Asserts  []AssertSpec
+	Uses     []string
 	Opts     map[string]string
 	File     string
 	Line     int
@@ -68,6 +69,7 @@ type SpecFn struct {
 
 type Lemma struct {
 	Name  string
+	Params []SpecParam
 	C     Clause
 	Tags  []string
 	Induc string // optional: induction variable
@@ -169,17 +171,31 @@ func (cs *ContractSet) parseFile(path string) error {
 			cur = nil
 		case "lemma":
 			rest, tags := splitTags(rest)
-			j := strings.Index(rest, ":")
-			if j < 0 {
-				return fail(fmt.Errorf("lemma needs name:"))
+			// lemma name(a int, s seq): expr
+			j := strings.Index(rest, "):")
+			k := strings.Index(rest, "(")
+			if j < 0 || k < 0 || k > j {
+				return fail(fmt.Errorf("lemma name(params): expr"))
 			}
-			name := strings.TrimSpace(rest[:j])
-			src := strings.TrimSpace(rest[j+1:])
+			name := strings.TrimSpace(rest[:k])
+			var params []SpecParam
+			for _, p := range strings.Split(rest[k+1:j], ",") {
+				p = strings.TrimSpace(p)
+				if p == "" {
+					continue
+				}
+				f := strings.Fields(p)
+				if len(f) != 2 {
+					return fail(fmt.Errorf("lemma param %q", p))
+				}
+				params = append(params, SpecParam{f[0], f[1]})
+			}
+			src := strings.TrimSpace(rest[j+2:])
 			e, err := parseExpr(src)
 			if err != nil {
 				return fail(err)
 			}
-			cs.Lemmas = append(cs.Lemmas, &Lemma{Name: name, C: Clause{Label: name, E: e, Src: src, Tags: tags, File: path, Line: lnos[i]}, Tags: tags})
+			cs.Lemmas = append(cs.Lemmas, &Lemma{Name: name, Params: params, C: Clause{Label: name, E: e, Src: src, Tags: tags, File: path, Line: lnos[i]}, Tags: tags})
 			cur = nil
 		default:
 			if cur == nil {
@@ -236,6 +252,8 @@ func (c *Contract) addClause(kw, rest, path string, line int) error {
 				c.Modifies = append(c.Modifies, m)
 			}
 		}
+	case "use":
+		c.Uses = append(c.Uses, rest)
 	case "pure":
 		c.HasMod = true
 	case "inline":
